@@ -27,8 +27,9 @@ type FuncVerifier struct {
 
 	cutAt map[ssa.Instruction][]*CutSpec // lemmas to prove just before an instruction
 
-	obls []*Obligation
-	errs []string
+	obls  []*Obligation
+	errs  []string
+	warns []string
 }
 
 func NewFuncVerifier(w *World, fn *ssa.Function, pass Pass) *FuncVerifier {
@@ -222,7 +223,7 @@ func (fv *FuncVerifier) modifiesNothing() bool {
 	return nothing
 }
 
-func (fv *FuncVerifier) modTags() []string { return []string{"C13", "C17"} }
+func (fv *FuncVerifier) modTags() []string { return []string{"C13", "C17", "C15"} }
 
 func (fv *FuncVerifier) ghostAllowed(h string) bool {
 	for _, m := range fv.activeMods() {
@@ -472,7 +473,9 @@ func (fv *FuncVerifier) Run() {
 			} else if ls.Header != "" {
 				src := fv.loopText(fv.headers[ord])
 				if src != "" && !strings.Contains(normSpace(src), normSpace(ls.Header)) {
-					fv.errs = append(fv.errs, fmt.Sprintf("STALE: %s loop %d header is %q, contract says %q", fv.spec.Key, ord, src, ls.Header))
+					// the loop was edited: the contract is still applied by ordinal (an invariant that
+					// no longer fits fails its obligations or its elaboration, which is reported)
+					fv.warns = append(fv.warns, fmt.Sprintf("loop %d of %s now reads %q, contract was written for %q", ord, fv.spec.Key, src, ls.Header))
 				}
 			}
 		}
